@@ -181,6 +181,81 @@ def _chunk(params, lo, hi):
     return r
 
 
+def large_lps():
+    """larger LPs whose optimum is known in closed form: (name, c, A, b, minimize, optimum)"""
+    import itertools as it
+
+    out = []
+    n = 12
+    c = [((3 * j) % 7) - 3 for j in range(n)]
+    u = [1 + j % 4 for j in range(n)]
+    A = [[1 if k == j else 0 for k in range(n)] for j in range(n)]
+    out.append(("box12_max", c, A, u, False, sum(max(cj, 0) * uj for cj, uj in zip(c, u))))
+    out.append(("box12_min", c, A, u, True, sum(min(cj, 0) * uj for cj, uj in zip(c, u))))
+    for k in (4, 5, 6):  # Klee-Minty cube: max sum 2^(k-j) x_j, optimum 5^k at (0,...,0,5^k)
+        A = [[(2 ** (i - j + 1) if j < i else (1 if j == i else 0)) for j in range(k)] for i in range(k)]
+        b = [5 ** (i + 1) for i in range(k)]
+        c = [2 ** (k - 1 - j) for j in range(k)]
+        out.append((f"klee_minty_{k}", c, A, b, False, 5**k))
+    for m in (3, 4):  # assignment polytope: every row and column sums to exactly 1 (<= and >= rows), integral vertices
+        cost = [[(3 * i + 5 * j + i * j) % 7 + 1 for j in range(m)] for i in range(m)]
+        A, b = [], []
+        for i in range(m):
+            row = [1 if k // m == i else 0 for k in range(m * m)]
+            A += [row, [-x for x in row]]
+            b += [1, -1]
+        for j in range(m):
+            col = [1 if k % m == j else 0 for k in range(m * m)]
+            A += [col, [-x for x in col]]
+            b += [1, -1]
+        flat = [cost[i][j] for i in range(m) for j in range(m)]
+        sums = [sum(cost[i][p[i]] for i in range(m)) for p in it.permutations(range(m))]
+        out.append((f"assignment_polytope_{m}x{m}_min", flat, A, b, True, min(sums)))
+        out.append((f"assignment_polytope_{m}x{m}_max", flat, A, b, False, max(sums)))
+    return out
+
+
+def _large_chunk(params, lo, hi):
+    from solvor.interior_point import solve_lp_interior
+    from solvor.simplex import solve_lp
+    from solvor.types import Status
+
+    cases = large_lps()
+    r = new_result()
+    for idx in range(lo, hi):
+        name, c, A, b, minimize, opt = cases[idx]
+        fA = [[float(x) for x in row] for row in A]
+        fb = [float(x) for x in b]
+        fc = [float(x) for x in c]
+        for fname, fn in (("solve_lp", solve_lp), ("solve_lp_interior", solve_lp_interior)):
+            wit = {"large": name, "function": fname}
+            r["n"] += 1
+            r["nontrivial"] += 1
+            try:
+                res = gcall(lambda: fn(fc, fA, fb, minimize=minimize), 30.0, 300_000_000)
+            except Exception as ex:  # noqa: BLE001
+                r["violations"].append(viol(fname, "raised", wit, f"{fname} on {name}: {type(ex).__name__}: {ex}"))
+                continue
+            r["outcomes"][f"large:{fname}:{res.status.name}"] += 1
+            if fname == "solve_lp" and res.status != Status.OPTIMAL:
+                r["violations"].append(viol(fname, "wrong_status", wit, f"{fname} on {name}: status {res.status.name}, the LP has the finite optimum {opt}"))
+                continue
+            if res.status == Status.OPTIMAL:
+                x = res.solution
+                tol = 1e-6 * (1 + abs(opt)) if fname == "solve_lp" else 1e-4 * (1 + abs(opt))
+                cx = sum(cj * xj for cj, xj in zip(c, x))
+                worst = max([sum(a * xj for a, xj in zip(row, x)) - bi for row, bi in zip(A, b)] + [-xj for xj in x])
+                if worst > 1e-6 * (1 + max(abs(v) for v in b)):
+                    r["violations"].append(viol(fname, "constraint_violated", wit, f"{fname} on {name}: constraint violation {worst:.3g} at the returned point"))
+                elif abs(cx - res.objective) > tol or abs(res.objective - opt) > tol:
+                    r["violations"].append(viol(fname, "wrong_optimum", wit, f"{fname} on {name}: objective {res.objective} (c.x = {cx}), the optimum is {opt}"))
+            elif res.status in (Status.INFEASIBLE, Status.UNBOUNDED):
+                r["violations"].append(viol(fname, "wrong_status", wit, f"{fname} on {name}: status {res.status.name}, the LP has the finite optimum {opt}"))
+        if not r["samples"]:
+            r["samples"].append({"large": name})
+    return r
+
+
 def _size(n, m, aa, ba, ca):
     return len(aa) ** (n * m) * len(ba) ** m * len(ca) ** n * 2
 
@@ -201,6 +276,7 @@ def jobs(tier, seed):
     js.append(_job("simplex_3v2r_ternary", 3, 2, T3, T3, T3, "solve_lp"))
     js.append(_job("simplex_1v3r_full", 1, 3, A4, B5, C4, "solve_lp"))
     js.append(_job("simplex_3v1r_full", 3, 1, A4, B5, C4, "solve_lp"))
+    js.append(Job("large_closed_form", len(large_lps()), _large_chunk, None, chunk=1, describe="box LPs with 12 variables, Klee-Minty cubes of dimension 4-6 (optimum 5^k), assignment polytopes 3x3 and 4x4 with equality rows (optimum by permutations); simplex and interior point"))
     # entries 3 and -3: pivoting on them produces thirds, i.e. the first tableaux with genuine rounding residue (every
     # other alphabet here is dyadic and therefore exact in binary floating point)
     js.append(_job("simplex_2v2r_thirds", 2, 2, (-3, -1, 0, 2, 3), (-2, 0, 1, 6), (-3, -1, 0, 2), "solve_lp"))
@@ -228,6 +304,14 @@ def jobs(tier, seed):
 
 def replay(v):
     w = v["witness"]
+    if w.get("large"):
+        names = [c[0] for c in large_lps()]
+        i = names.index(w["large"])
+        rr = _large_chunk(None, i, i + 1)
+        for x in rr["violations"]:
+            if x["function"] == v["function"]:
+                return x
+        return None
     A = [[Fraction(x) for x in row] for row in w["A"]]
     b = [Fraction(x) for x in w["b"]]
     c = [Fraction(x) for x in w["c"]]
